@@ -49,6 +49,22 @@ func c16Specs() []*bfsSpec {
 
 func TestVerifC16(t *testing.T) { runSpecs(t, "C16", c16Specs()) }
 
+// Peers stepped arm by arm (profile worldsel): requests, cancels and
+// interest changes from the remote cross the torrent's choke decisions and the
+// upload ticker at the granularity of single select arms.
+func c16SelSpecs() []*bfsSpec {
+	al := []string{"req:0:0:0:16384", "req:0:2:0:100", "ucancel:0", "notinterested:0", "interested:0", "chokepeer:0", "unchokepeer:0",
+		"pstep:0:2", "pstep:0:3", "pstep:0:5", "advms:300", "ungate:0", "gate:0", "evict", "close:0"}
+	return []*bfsSpec{
+		{Name: "c16-sel-fast", Cfg: worldCfg{Geom: "gshort", Peers: []peerCfg{{Fast: true, Ext: true, DontHave: 7}}, Have: []int{0, 2}, AutoDrain: true, Gates: true},
+			Setup: []string{"interested:0", "unchokepeer:0", "gate:0"}, Alphabet: al, Depth: 5, DepthT: 7},
+		{Name: "c16-sel-nonfast", Cfg: worldCfg{Geom: "gshort", Peers: []peerCfg{{}}, Have: []int{0, 2}, AutoDrain: true, Gates: true},
+			Setup: []string{"interested:0", "unchokepeer:0", "gate:0"}, Alphabet: al, Depth: 5, DepthT: 7},
+	}
+}
+
+func TestVerifC16Sel(t *testing.T) { runSpecs(t, "C16", c16SelSpecs()) }
+
 // TestVerifC16Big: one scenario on a torrent larger than 4 GiB (17 pieces of
 // 256 MiB, pieces 0 and 16 held): requests at offsets beyond 2^32 must be
 // answered with the bytes of *that* range.  The content is a cheap position
